@@ -220,7 +220,9 @@ class SequenceContainer(common.Parseable, common.XmlObject):
         -------
         : ElementTree.Element
         """
-        containers = tree.getroot().find("TelemetryMetaData/ContainerSet").findall(f"SequenceContainer[@name='{name}']")
+        # Names are compared in Python: a name may contain quote characters, which cannot be spliced into an XPath predicate
+        containers = [container for container in tree.getroot().find("TelemetryMetaData/ContainerSet").findall("SequenceContainer")
+                      if container.attrib.get("name") == name]
         if len(containers) != 1:
             raise ValueError(f"Found {len(containers)} matching container_set with name {name}. "
                              f"Container names are expected to exist and be unique.")
